@@ -24,6 +24,9 @@ def units(tier, seed):
         if tier == "quick" and u["kind"] != "struct":
             u["value_valid"] = False
             u["subst_alphabet"] = (0x00, 0xFF)
+        if tier == "thorough" and u["kind"] != "struct":
+            u["value_valid"] = False
+            u["subst_base_only"] = True  # frames: all ten substitute bytes on the default base case only
     us += bscope.units(tier, seed)
     return us
 
